@@ -143,12 +143,16 @@ func (x *Explorer) Run() {
 					skip = true
 				}
 				wantW := len(rr.Witnesses) < x.maxWitnessPerRoot
+				covered := map[string]bool{}
+				for l := range rr.CoverWitness {
+					covered[l] = true
+				}
 				rr.mu.Unlock()
 				if !skip {
 					if alt == nil {
 						alt, _ = NewSolver("cvc5", x.timeoutMs)
 					}
-					pr = runPath(x.P, sol, alt, rr.Root, it.prefix, wantW, x.verbose)
+					pr = runPath(x.P, sol, alt, rr.Root, it.prefix, wantW, covered, x.verbose)
 				}
 
 				mu.Lock()
